@@ -200,12 +200,15 @@ def v1_hasher(ctx):
     ctx.decide("C01.6", nx, ok, "read buffer is piece_length bytes", "read buffer is bytearray(%s), not piece_length" % (norm(bufs[0].value.args[0]) if bufs else "?"), bufs[0] if bufs else nx.node)
     # zero read -> next file or stop, inside a loop
     g = C.cfg_of(nx)
+    rds = [n for n in own_nodes(nx.node) if isinstance(n, ast.Assign) and isinstance(n.value, ast.Call) and isinstance(n.value.func, ast.Attribute) and n.value.func.attr == "readinto"
+           and isinstance(n.targets[0], ast.Name)]
+    SZ = rds[0].targets[0].id if rds else "size"
     raises = [n for n in own_nodes(nx.node) if isinstance(n, ast.Raise) and "StopIteration" in norm(n.exc)]
     ok = False
     for r in raises:
         rn = C.stmt_node(ctx, nx, r)
         deps = [(norm(C.test_expr(b)), lab) for b, lab in g.control_deps(rn) if C.test_expr(b) is not None]
-        z = any(t in ("size == 0", "not size") and lab == "true" for t, lab in deps)
+        z = any(t in ("%s == 0" % SZ, "not %s" % SZ) and lab == "true" for t, lab in deps)
         nfc = any("next_file()" in t and ((t.startswith("not ") and lab == "true") or (not t.startswith("not ") and lab == "false")) for t, lab in deps)
         ok = ok or (z and nfc)
     whiles = [n for n in own_nodes(nx.node) if isinstance(n, ast.While)]
@@ -216,7 +219,7 @@ def v1_hasher(ctx):
     for c in calls:
         cn = C.stmt_node(ctx, nx, c)
         conds = [(norm(C.test_expr(b)), lab) for b, lab in g.direct_control_deps(cn) if C.test_expr(b) is not None]
-        ok = any(t == "size < %s" % PL and lab == "true" for t, lab in conds)
+        ok = any(t == "%s < %s" % (SZ, PL) and lab == "true" for t, lab in conds)
         ctx.decide("C01.6", nx, ok, "a read shorter than the piece length is continued across files", "the cross-file continuation is entered under %s" % conds, c)
     # _handle_partial: stitching loop
     arr = [p for p in hp.params if p != hp.self_name][0]
